@@ -155,25 +155,21 @@ def check_history(hist, steps, obs_table, lenient_labels=True):
             return found + [(n, "store %s: returns %s, specified %s" % (tag, got, want), st.get("msg"))]
         if want == "error":
             tag = "%s(invalid)" % call["op"] if shape != "no-graph" else tag
-        obs = obs_table.get(json.dumps(after, sort_keys=True))
-        if obs is None:
-            return found + [(n, "harness: spec state missing from observation table", "")]
-        obs = dictify(obs)
-        real = st["obs"]
-        aspects = []
-        for g in ("g1", "g2", "g3"):
-            if (g in obs) != (g in real and "listed_but_unopenable" not in real.get(g, {})):
-                aspects.append("graph-existence")
-                continue
-            if g in obs:
-                if not real[g].get("listed", True):
-                    aspects.append("graph-not-listed")
-                asp = [a for a in cmp_graph(obs[g], real[g]) if a not in mask]
-                if g != call.get("g") and asp:
-                    aspects.append("other-graph-affected")
-                else:
-                    aspects += asp
-        aspects = [a for a in aspects if a not in mask]
+        alt = nstate(h["alt"]) if "alt" in h else after
+        is_open = alt != after          # a failed batch with valid elements: nothing stored, or the valid elements stored
+        verdict = None
+        for cand in ([after, alt] if is_open else [after]):
+            verdict = _aspects(cand, st, call, obs_table, mask)
+            if verdict is None:
+                return found + [(n, "harness: spec state missing from observation table", "")]
+            if not verdict:
+                break
+        aspects = verdict
+        if is_open:
+            if aspects:
+                return found + [(n, "store %s(mixed batch): neither nothing nor the valid elements stored: %s" % (call["op"], ",".join(sorted(classes(aspects)))),
+                                 dict(aspects=sorted(set(aspects))))]
+            return found      # which of the two happened is open: the history ends here
         if aspects:
             rec = (n, "store %s: %s" % (tag, ",".join(sorted(classes(aspects)))), dict(aspects=sorted(set(aspects))))
             if lenient_labels and set(aspects) <= LABEL_ASPECTS:
@@ -191,3 +187,27 @@ def check_history(hist, steps, obs_table, lenient_labels=True):
                 return found + [(n, "store %s: timestamp changed by a failed call" % tag, g)]
         before = after
     return found
+
+
+def _aspects(after, st, call, obs_table, mask):
+    """aspects of the observation st that differ from Obs of the spec state `after` (None: state not in the table)"""
+    if True:
+        obs = obs_table.get(json.dumps(after, sort_keys=True))
+        if obs is None:
+            return None
+        obs = dictify(obs)
+        real = st["obs"]
+        aspects = []
+        for g in ("g1", "g2", "g3"):
+            if (g in obs) != (g in real and "listed_but_unopenable" not in real.get(g, {})):
+                aspects.append("graph-existence")
+                continue
+            if g in obs:
+                if not real[g].get("listed", True):
+                    aspects.append("graph-not-listed")
+                asp = [a for a in cmp_graph(obs[g], real[g]) if a not in mask]
+                if g != call.get("g") and asp:
+                    aspects.append("other-graph-affected")
+                else:
+                    aspects += asp
+        return [a for a in aspects if a not in mask]
